@@ -733,8 +733,14 @@ def one_mal(r, tier, kind):
         tags.append("cancel@recv" if cancel[0] == "r" else "cancel@wait")
         out[0] = "tag " + " ".join(tags)
     elif kind == "hostile-peer" or r.chance(1, 8):
-        k = r.below(5)
-        if k == 0:
+        k = r.below(6)
+        if k == 5 and not generic:
+            # the connection attempt has already failed (its failure is queued with the event loop, not yet delivered)
+            # when the request is cancelled
+            conn = r.choice([1, 2, 2])
+            cancel = r.choice(["0", "0", "-"])
+            sndmax = 1000000          # the refusal comes from connect() itself
+        elif k == 5 or k == 0:
             conn = r.choice([1, 2, 2])
         elif k == 1:
             sndfail = str(r.choice([0, 1, 5, 17, 18, 19, 40, 100000]))
